@@ -57,10 +57,10 @@ static int cur_call_num;
 static int has(const char *f, const char *pat) { for (int i = 0; f[i]; i++) { int j = 0; while (pat[j] && f[i + j] == pat[j]) j++; if (!pat[j]) return 1; } return 0; }
 void d_string_append_printf(DString *d, const char *fmt, ...) {
 	va_list ap; va_start(ap, fmt);
-	if (has(fmt, "href=\"#" TAG ":%d\" id=\"" TAG "ref:%d\"")) { if (n_call < MAXC) { call_href[n_call] = va_arg(ap, int); call_id[n_call] = va_arg(ap, int); call_num[n_call] = cur_call_num; n_call++; } }
-	else if (has(fmt, "href=\"#" TAG ":%d\"")) { if (n_call < MAXC) { call_href[n_call] = va_arg(ap, int); call_id[n_call] = -1; call_num[n_call] = cur_call_num; n_call++; } }
-	else if (has(fmt, "<li id=\"" TAG ":%d\"")) { if (n_li < MAXC) li_id[n_li++] = va_arg(ap, int); }
-	else if (has(fmt, "href=\"#" TAG "ref:%d\"")) { back_href = va_arg(ap, int); n_back++; }
+	if (has(fmt, "href=\"#" TAG ":%d\" id=\"" TAG "ref:%d\"")) { if (n_call < MAXC) { call_href[n_call] = (int) (short) va_arg(ap, int); call_id[n_call] = (int) (short) va_arg(ap, int); call_num[n_call] = cur_call_num; n_call++; } }
+	else if (has(fmt, "href=\"#" TAG ":%d\"")) { if (n_call < MAXC) { call_href[n_call] = (int) (short) va_arg(ap, int); call_id[n_call] = -1; call_num[n_call] = cur_call_num; n_call++; } }
+	else if (has(fmt, "<li id=\"" TAG ":%d\"")) { if (n_li < MAXC) li_id[n_li++] = (int) (short) va_arg(ap, int); }
+	else if (has(fmt, "href=\"#" TAG "ref:%d\"")) { back_href = (int) (short) va_arg(ap, int); n_back++; }
 	va_end(ap);
 }
 /* ---- libc PRNG as an uninterpreted function of the seed (memoised nondet table) ---- */
